@@ -39,6 +39,9 @@ DMAX = {'quick': 6, 'thorough': 9}
 
 SM = [-1.2, 0.0, 0.7]        # smooth everywhere
 SMC = [0.7 + 0.3j, -1.2 + 0.5j, 2.3 - 1.1j]
+# entire / periodic functions: also base points whose imaginary part lies beyond pi/2 and beyond pi (other branches of
+# any inverse-function shortcut), in both half planes
+SMW = SMC + [0.3 + 2.5j, -0.4 - 2.0j, 0.2 + 4.0j]
 POSP = [0.3, 1.0, 2.5]
 POSC = [0.7 + 0.3j, 0.4 - 0.6j, -0.7 + 0.4j]
 
@@ -52,23 +55,23 @@ def table():
 
     def add(name, f, g, pts, cpts=None, maxD=None):
         T.append({'name': name, 'f': f, 'g': g, 'pts': pts, 'cpts': cpts, 'maxD': maxD})
-    add('exp', algopy.exp, mp.exp, SM, SMC)
-    add('expm1', algopy.expm1, mp.expm1, SM, SMC)
+    add('exp', algopy.exp, mp.exp, SM, SMW)
+    add('expm1', algopy.expm1, mp.expm1, SM, SMW)
     add('log', algopy.log, mp.log, POSP, POSC)
     add('log1p', algopy.log1p, mp.log1p, [-0.5, 0.0, 1.5], POSC)
     add('sqrt', algopy.sqrt, mp.sqrt, POSP, POSC)
-    add('sin', algopy.sin, mp.sin, SM, SMC)
-    add('cos', algopy.cos, mp.cos, SM, SMC)
-    add('tan', algopy.tan, mp.tan, SM, SMC)
+    add('sin', algopy.sin, mp.sin, SM, SMW)
+    add('cos', algopy.cos, mp.cos, SM, SMW)
+    add('tan', algopy.tan, mp.tan, SM, SMW)
     add('arcsin', algopy.arcsin, mp.asin, [-0.7, 0.0, 0.4], [0.3 + 0.3j, 1.5 + 0.5j, -1.3 - 0.4j])
     add('arccos', algopy.arccos, mp.acos, [-0.7, 0.0, 0.4], [0.3 + 0.3j, 1.5 + 0.5j, -1.3 - 0.4j])
     add('arctan', algopy.arctan, mp.atan, SM, [0.7 + 0.3j, -0.4 + 1.6j])
-    add('sinh', algopy.sinh, mp.sinh, SM, SMC)
-    add('cosh', algopy.cosh, mp.cosh, SM, SMC)
-    add('tanh', algopy.tanh, mp.tanh, SM, SMC)
+    add('sinh', algopy.sinh, mp.sinh, SM, SMW)
+    add('cosh', algopy.cosh, mp.cosh, SM, SMW)
+    add('tanh', algopy.tanh, mp.tanh, SM, SMW)
     add('reciprocal', algopy.reciprocal, lambda x: 1 / x, [-1.2, 0.7], SMC)
-    add('square', algopy.square, lambda x: x * x, SM, SMC)
-    add('negative', algopy.negative, lambda x: -x, SM, SMC)
+    add('square', algopy.square, lambda x: x * x, SM, SMW)
+    add('negative', algopy.negative, lambda x: -x, SM, SMW)
     add('erf', sp.erf, mp.erf, SM, [0.7 + 0.3j])
     add('erfi', sp.erfi, mp.erfi, SM, [0.7 + 0.3j])
     add('dawsn', sp.dawsn, dawson, SM, [0.7 + 0.3j])
